@@ -17,6 +17,8 @@ structure ScrOk (s : Scr) : Prop where
 def CurOk (s : Scr) (c : Car) : Prop := 0 ≤ c.x ∧ c.x ≤ 132 ∧ 0 ≤ c.y ∧ c.y ≤ s.bh + 60
 /-- C09: the cursor is inside the visible screen (and the buffer is at least a screen high) -/
 def InScr (s : Scr) (c : Car) : Prop := s.th ≤ s.bh ∧ c.x < s.tw ∧ s.fv ≤ c.y ∧ c.y < s.fv + s.th
+/-- the row part of `InScr` -/
+def InScrY (s : Scr) (c : Car) : Prop := s.th ≤ s.bh ∧ s.fv ≤ c.y ∧ c.y < s.fv + s.th
 
 /-- the result is `ok` and satisfies `P` -/
 def okAnd {α : Type} (r : Res α) (P : α → Prop) : Prop :=
@@ -68,7 +70,7 @@ theorem limit_full (s : Scr) (c : Car) (h : ScrOk s) (hb : s.bh ≤ 2147483647) 
 
 theorem lf_spec (s : Scr) (c : Car) (hk : ScrOk s) (hy0 : 0 ≤ c.y) (hy1 : c.y ≤ s.bh + 60) (hs : s.bh ≤ 1073742000) :
     okAnd (lf s c) (fun r => r.1 = { s with bh := r.1.bh } ∧ s.bh ≤ r.1.bh ∧ r.1.bh ≤ s.bh + 62 ∧
-      CurOk r.1 r.2 ∧ r.2.ins = c.ins ∧ (InScr s c → InScr r.1 r.2)) := by
+      CurOk r.1 r.2 ∧ r.2.ins = c.ins ∧ (InScrY s c → InScr r.1 r.2)) := by
   have := hk.tw1; have := hk.tw2; have := hk.th1; have := hk.th2; have := hk.bh0
   have hmt := hk.mtb
   obtain ⟨tw, th, bw, bh, mtb, mlr, dm, aw, tabs⟩ := s
@@ -81,8 +83,8 @@ theorem lf_spec (s : Scr) (c : Car) (hk : ScrOk s) (hy0 : 0 ≤ c.y) (hy1 : c.y 
     simp only at hfv hfv' hl l0 l1 l2 l3 l4
     simp only [lf, hl, checkScrollDown, Scr.lastEditable, Scr.needsScrolling, Option.isSome_none,
       Bool.false_eq_true, false_or, false_and, if_false, satSub, sat]
-    split <;> simp only [okAnd_ok, CurOk, InScr] <;> refine ⟨?_, ?_, ?_, ?_, ?_, ?_⟩ <;>
-      first | rfl | trivial | assumption | omega | (intro ⟨_, _, _, _⟩; refine ⟨?_, ?_, ?_, ?_⟩ <;> omega)
+    split <;> simp only [okAnd_ok, CurOk, InScr, InScrY] <;> refine ⟨?_, ?_, ?_, ?_, ?_, ?_⟩ <;>
+      first | rfl | trivial | assumption | omega | (intro ⟨_, _, _⟩; refine ⟨?_, ?_, ?_, ?_⟩ <;> omega)
   | some p =>
     obtain ⟨t, e⟩ := p
     have := hmt t e rfl
@@ -93,8 +95,99 @@ theorem lf_spec (s : Scr) (c : Car) (hk : ScrOk s) (hy0 : 0 ≤ c.y) (hy1 : c.y 
     simp only [lf, hl, checkScrollDown, Scr.lastEditable, Scr.needsScrolling, Option.isSome_some,
       true_or, true_and, satSub, sat]
     repeat' split
-    all_goals simp only [okAnd_ok, CurOk, InScr]
+    all_goals simp only [okAnd_ok, CurOk, InScr, InScrY]
     all_goals refine ⟨?_, ?_, ?_, ?_, ?_, ?_⟩
-    all_goals first | rfl | trivial | assumption | omega | (intro ⟨_, _, _, _⟩; refine ⟨?_, ?_, ?_, ?_⟩ <;> omega)
+    all_goals first | rfl | trivial | assumption | omega | (intro ⟨_, _, _⟩; refine ⟨?_, ?_, ?_, ?_⟩ <;> omega)
+
+theorem rangeOk_bh (s : Scr) (c : Car) (hk : ScrOk s) (h : RangeOk s c) : s.bh ≤ 1073741854 := by
+  have := hk.th1; have := hk.th2; have := hk.bh0
+  obtain ⟨⟨_, h1⟩, _⟩ := h
+  unfold Scr.fv satSub sat at h1
+  omega
+
+theorem rangeOk_of_small (s : Scr) (c : Car) (hk : ScrOk s) (hc : CurOk s c) (hb : s.bh ≤ 1073741000) :
+    RangeOk s c := by
+  have := hk.tw1; have := hk.tw2; have := hk.th1; have := hk.th2; have := hk.bh0
+  obtain ⟨hx0, hx1, hy0, hy1⟩ := hc
+  have hfv := fv_eq s hk (by omega)
+  simp only [RangeOk, InI32]
+  omega
+
+theorem printChar_spec (s : Scr) (c : Car) (hk : ScrOk s) (hc : CurOk s c) (hs : s.bh ≤ 1073741900) :
+    okAnd (printChar s c) (fun r => r.1 = { s with bh := r.1.bh } ∧ s.bh ≤ r.1.bh ∧ r.1.bh ≤ s.bh + 124 ∧
+      CurOk r.1 r.2 ∧ r.2.ins = c.ins ∧ (InScr s c → InScr r.1 r.2)) := by
+  have := hk.tw1; have := hk.tw2; have := hk.th1; have := hk.th2; have := hk.bh0
+  obtain ⟨hx0, hx1, hy0, hy1⟩ := hc
+  have hn : ¬ (c.ins = true ∧ c.y < 0) := by omega
+  simp only [printChar, hn, if_false]
+  have hk1 : ScrOk { s with bh := max s.bh (c.y + 1) } := scrOk_bh s _ hk (by omega)
+  have hfv := fv_eq s hk (by omega)
+  have hfv1 := fv_bh s (max s.bh (c.y + 1)) hk (by omega) (by omega)
+  split
+  · split
+    · have hl := lf_spec { s with bh := max s.bh (c.y + 1) } { c with x := c.x + 1 } hk1 (by simpa using hy0)
+        (by simp only; omega) (by simp only; omega)
+      refine okAnd_mono hl ?_
+      intro r ⟨h1, h2, h3, h4, h5, h6⟩
+      simp only at h1 h2 h3 h5 h6
+      refine ⟨?_, by omega, by omega, h4, h5, ?_⟩
+      · rw [h1]
+      · intro ⟨i1, i2, i3, i4⟩
+        apply h6
+        simp only [InScrY]
+        refine ⟨?_, ?_, ?_⟩ <;> omega
+    · simp only [okAnd_ok, CurOk, InScr]
+      refine ⟨?_, ?_, ?_, ⟨?_, ?_, ?_, ?_⟩, ?_, ?_⟩ <;>
+        first | rfl | trivial | omega | (intro ⟨_, _, _, _⟩; refine ⟨?_, ?_, ?_, ?_⟩ <;> omega)
+  · simp only [okAnd_ok, CurOk, InScr]
+    refine ⟨?_, ?_, ?_, ⟨?_, ?_, ?_, ?_⟩, ?_, ?_⟩ <;>
+      first | rfl | trivial | omega | (intro ⟨_, _, _, _⟩; refine ⟨?_, ?_, ?_, ?_⟩ <;> omega)
+
+
+/-- `print_char` n times: every intermediate state passes the `i32` guard or the run stops with `overflow` -/
+def okOrOv {α : Type} (r : Res α) (P : α → Prop) : Prop :=
+  match r with
+  | .ok a => P a
+  | .error e => ∃ site, e = Panic.overflow site
+@[simp] theorem okOrOv_ok {α : Type} (a : α) (P : α → Prop) : okOrOv (.ok a : Res α) P = P a := rfl
+theorem okOrOv_of_okAnd {α : Type} {r : Res α} {P : α → Prop} (h : okAnd r P) : okOrOv r P := by
+  cases r with
+  | ok a => exact h
+  | error e => exact h.elim
+theorem okOrOv_mono {α : Type} {r : Res α} {P Q : α → Prop} (h : okOrOv r P) (hpq : ∀ a, P a → Q a) : okOrOv r Q := by
+  cases r with
+  | ok a => exact hpq a h
+  | error e => exact h
+
+/-- what every geometry-changing primitive guarantees about the screen part -/
+def ScrStep (s s' : Scr) : Prop := s' = { s with bh := s'.bh } ∧ s.bh ≤ s'.bh
+
+theorem printN_spec (n : Nat) (s : Scr) (c : Car) (hk : ScrOk s) (hc : CurOk s c) :
+    okOrOv (printN n s c) (fun r => ScrStep s r.1 ∧ CurOk r.1 r.2 ∧ r.2.ins = c.ins ∧ (InScr s c → InScr r.1 r.2)) := by
+  induction n generalizing s c with
+  | zero =>
+    show okOrOv (.ok (s, c)) _
+    rw [okOrOv_ok]
+    exact ⟨⟨rfl, Int.le_refl _⟩, hc, rfl, id⟩
+  | succ n ih =>
+    simp only [printN]
+    by_cases hr : RangeOk s c
+    · simp only [hr, not_true_eq_false, if_false]
+      have hb := rangeOk_bh s c hk hr
+      have hp := printChar_spec s c hk hc (by omega)
+      cases hpc : printChar s c with
+      | error e => rw [hpc] at hp; exact hp.elim
+      | ok r =>
+        rw [hpc] at hp
+        obtain ⟨s1, c1⟩ := r
+        obtain ⟨h1, h2, h3, h4, h5, h6⟩ := hp
+        simp only at h1 h2 h3 h4 h5 h6
+        have hk1 : ScrOk s1 := by rw [h1]; exact scrOk_bh s _ hk (by have := hk.bh0; omega)
+        refine okOrOv_mono (ih s1 c1 hk1 h4) ?_
+        intro r ⟨⟨g1, g2⟩, g3, g4, g5⟩
+        refine ⟨⟨?_, by omega⟩, g3, by rw [g4, h5], fun hi => g5 (h6 hi)⟩
+        rw [g1, h1]
+    · simp only [hr, not_false_eq_true, if_true, okOrOv]
+      exact ⟨_, rfl⟩
 
 end IcyVerif.Term
